@@ -29,7 +29,8 @@ def generate(repo, emit, src, func_body):
     import fmt_shapes
     s = src('src/Show.c')
     b = func_body(s, r'int\s+print_to_with\s*\([^)]*\)\s*\{')
-    names = ('print_convs', 'print_int_convs', 'print_float_convs', 'print_dispatch_nul_hits', 'print_shape_ok', 'print_pct_skip', 'print_buf_extra')
+    names = ('print_convs', 'print_int_convs', 'print_float_convs', 'print_dispatch_nul_hits', 'print_shape_ok', 'print_pct_skip', 'print_buf_extra',
+             'print_buf_stack_cap', 'print_buf_stack_test')
     r = fmt_shapes.parse_print_to_with(b, s) if b else None
     if not r:
         for n in names:
@@ -44,11 +45,13 @@ def generate(repo, emit, src, func_body):
              % ' '.join(r['forms']))
         emit('print_pct_skip', 'Definition print_pct_skip : nat := %d.   (* source: fmt += %d after "%%%%" *)' % (r['pct_skip'], r['pct_skip']))
         emit('print_buf_extra', 'Definition print_buf_extra : nat := %d.   (* source: malloc(strlen(fmt)+%d) *)' % (r['buf_extra'], r['buf_extra']))
+        emit('print_buf_stack_cap', 'Definition print_buf_stack_cap : nat := %d.   (* source: size of the stack array used for the piece when the format is short (0 = none) *)' % r['stack_cap'])
+        emit('print_buf_stack_test', 'Definition print_buf_stack_test : nat := %d.   (* source: the stack array is used when strlen(fmt)+%d <= its size *)' % (r['stack_test'], r['stack_test']))
 
     # String_Format_To, generic branch
     st = src('src/String.c')
     fb = func_body(st, r'static\s+int\s+String_Format_To\s*\([^)]*\)\s*\{')
-    r = fmt_shapes.parse_string_format_to(fb) if fb else None
+    r = fmt_shapes.parse_string_format_to(fb, fmt_shapes.guard_helpers(st, func_body)) if fb else None
     if not r:
         for n in ('string_fmt_room', 'string_fmt_stack_cap', 'string_fmt_stack_limit'):
             emit(n, None)
@@ -62,8 +65,8 @@ def generate(repo, emit, src, func_body):
     fl = src('src/File.c')
     fb = func_body(fl, r'static\s+int\s+File_Format_To\s*\([^)]*\)\s*\{')
     ok = None
-    if fb and fmt_shapes.parse_file_format_to(fb):
-        ok = 'Definition file_fmt_returns_count : bool := true.   (* source: the body is `return vfprintf(f->file, fmt, va);` after the closed-file test *)'
+    if fb and fmt_shapes.parse_file_format_to(fb, fmt_shapes.stream_helpers(fl, func_body)):
+        ok = 'Definition file_fmt_returns_count : bool := true.   (* source: the body is `return vfprintf(<stream>, fmt, va);` behind the closed-file test *)'
     emit('file_fmt_returns_count', ok)
 
 
@@ -96,12 +99,13 @@ def generate_show(repo, emit, src, func_body):
                   r'pos = print_to\(output, pos, "%\$:%\$", Table_Key\(t, i\), Table_Val\(t, i\)\);', r'if \(j < Table_Len\(t\)-1\) ' + SEP)
     _show_strings(emit, src, func_body, 'src/Tree.c', 'Tree_Show', 'tree',
                   r'pos = print_to\(output, pos, "%\$:%\$", Tree_Key\(m, node\), Tree_Val\(m, node\)\);', r'if \(curr isnt Terminal\) ' + SEP)
-    # Int_Show / Float_Show: return print_to(output, pos, "%li", self);
+    # Int_Show / Float_Show: the format handed to the sink for the number's C value (print_to or format_to form)
+    import fmt_shapes
     n = src('src/Num.c')
-    for fn, name in (('Int_Show', 'int_show_fmt'), ('Float_Show', 'float_show_fmt')):
+    for fn, name, kind in (('Int_Show', 'int_show_fmt', 'int'), ('Float_Show', 'float_show_fmt', 'float')):
         b = func_body(n, r'int\s+%s\s*\([^)]*\)\s*\{' % fn)
-        m = re.search(r'return\s+print_to\(output,\s*pos,\s*"((?:[^"\\]|\\.)*)",\s*self\);', b or '')
-        emit(name, natlist(name, c_unescape(m.group(1)), 'source: %s prints "%s"' % (fn, m.group(1))) if m else None)
+        f = fmt_shapes.parse_number_show(b, kind) if b else None
+        emit(name, natlist(name, c_unescape(f), 'source: %s prints "%s"' % (fn, f)) if f is not None else None)
 
 
 _generate_scanner = generate
